@@ -171,7 +171,7 @@ func init() {
 				reached = true
 			case s := <-doneA: // A never reached a gate (an empty search): nothing to interleave
 				doneA <- s
-			case <-time.After(5 * time.Second):
+			case <-time.After(15 * time.Second):
 			}
 			progress()
 			if reached {
@@ -181,7 +181,7 @@ func init() {
 					if s != "" || fmt.Sprint(resB) != fmt.Sprint(aloneB) {
 						e["same"] = 0
 					}
-				case <-time.After(4 * time.Second):
+				case <-time.After(12 * time.Second):
 					e["completed"] = 0 // B cannot finish while A is in progress
 				}
 				progress()
@@ -196,7 +196,7 @@ func init() {
 				if s != "" || fmt.Sprint(resA) != fmt.Sprint(aloneA) {
 					e["same"] = 0
 				}
-			case <-time.After(5 * time.Second):
+			case <-time.After(15 * time.Second):
 				e["completed"] = 0
 			}
 			if e["completed"] == 0 {
